@@ -87,7 +87,8 @@ CHECKS["C03"] = (
     "from the live objects on each run) to the skeleton of its Indent/Dedent/Conditional metas; Lean's kernel re-checks that each distinct "
     "skeleton is neutral, and the theorem C03_grammar_balanced (induction over derivation height, soundness of the vector analysis) "
     "lifts that to: every complete match of every listed entry balances, under every configuration, references resolved to any depth. "
-    "Six entries are not neutral and are listed known findings. Partial: partial matches (Sequence.match returning early, a listed known "
+    "The skeleton semantics (e.g. that Bracketed.match drops every meta written inside the bracket) are corresponded with the real engine on "
+    "random small grammars built from the real grammar classes. Five entries are not neutral and are listed known findings. Partial: partial matches (Sequence.match returning early, a listed known "
     "finding attributed by instrumentation), running-balance >= 0 and the no-whitespace-ends clause are decided on real trees only.",
     "Lean 4 proof (indent accounting; soundness of the grammar skeleton analysis) + translator-regenerated kernel-checked obligations + Lean-evaluated tree specification on real parser output",
     "Lean kernel; standard axioms; translator grammar_balance.py trusted (a grammar without metas is abstracted to a leaf; match semantics of Sequence/OneOf/AnyNumberOf/Delimited/Bracketed/Ref as derivation rules); known findings keyed by call site / grammar entry",
@@ -102,7 +103,8 @@ CHECKS["C01"] = (
     "(contiguous rendered positions, in-bounds and monotone source positions, coverage, one LXR per unlexable) is evaluated by Lean "
     "on the real lexer's output for real dialects and all four templaters. The whitespace-splitting branch of _iter_segments is "
     "modelled and proved to tile the element in the rendered text and in its own text for any number of literal slices (the loop as it "
-    "stood before repair f54e85c is a kernel-checked counterexample) and corresponded on every split whitespace run of real jinja files. "
+    "stood before repair f54e85c is a kernel-checked counterexample); the stash logic for tokens that may not be split is proved to give the "
+    "source slice from the first to the last literal slice; both are corresponded on every such element of real jinja files. "
     "Partial: the remaining branches of _iter_segments are checked by evaluation only.",
     "Lean 4 proof (loop invariants, fuel-indexed induction) + differential correspondence + Lean-evaluated spec on real lexer output",
     "Lean kernel; standard axioms; regex engines are parameters (MatcherOK, NoStartAfterMid sampled); two genuine defects repaired (fix: ed45326, f54e85c)",
